@@ -31,7 +31,8 @@ class HistorySide:
     assumptions = []
     for p in self.history:
       c = real.compile_pred(self.text, p)
-      sql = '\n'.join(s if s.rstrip().endswith(';') else s + ';' for s in c.statements() if s.strip())
+      # the texts the real RunSqlScript would pass to SQLite (its own joining / splitting)
+      sql = '\n'.join(s if s.rstrip().endswith(';') else s + ';' for _k, s in real.executed_texts(c.statements()) if s.strip())
       self.scripts.append(c.statements())
       ctx = sqlsem.Ctx(store, strings, range_bound, compaction)
       rel = sqlsem.run_script(sqlparse.parse_script(sql), ctx)
